@@ -54,6 +54,19 @@ example : splitNonUniformIter [0, 3] 1 0 0 6 true [((1 : Int), (10 : Int)), (2, 
 /-- the former crash `Fiber([3],[5]).splitNonUniform([4], pre_halo=1)` (active range `[0,4)`): no partition -/
 example : splitNonUniformIter [4] 1 0 0 4 false [((3 : Int), (5 : Int))] = some [] := by decide
 
+/-- **boundaries handed over as a fiber** (`splitNonUniform(splits=<Fiber>)`): the boundaries are all the
+    stored coordinates of that fiber — elements with an explicit default or an empty sub-fiber as payload
+    included; for a well-formed (ascending) boundary fiber the split is `nuSpec` at exactly these -/
+theorem nonuniform_fiber_spec {ρ : Type} (bf : Fib Int ρ) (pre post as ae : Int) (rel : Bool)
+    (elems : Fib Int π) (hb : Sorted bf) (hsorted : Sorted elems) :
+    splitNonUniformIter (fiberCoords bf) pre post as ae rel elems =
+      some (nuSpec (bf.map (·.1)) pre post as ae rel elems) :=
+  nonuniform_spec _ pre post as ae rel elems (by unfold fiberCoords; rw [List.pairwise_map]; exact hb) hsorted
+
+example : splitNonUniformIter (fiberCoords [((0 : Int), (0 : Int)), (3, 0)]) 0 0 0 6 false
+    [((1 : Int), (10 : Int)), (2, 20), (5, 50)] =
+    some [⟨0, [(1, 10), (2, 20)], 0, 3⟩, ⟨3, [(5, 50)], 3, 6⟩] := by decide
+
 /-- **splitEqual**: never raises; it is the non-uniform split at the boundaries `active start,
     coordinate of every step-th active element` -/
 theorem equal_spec (step pre post as ae : Int) (rel : Bool) (elems : Fib Int π)
